@@ -26,11 +26,11 @@ ASSUME = ['spec/layouts.json is a correct transcription of IEEE 1722-2016 / acf-
           'nine worlds: gcc -O2 -funsigned-char -march=x86-64-v3 with the BSD/newlib endian constants defined, and an ILP32 one (gcc -m32, freestanding, own minimal C runtime; reduced lattice) and gcc -O2 (full lattice; the reduced lattice again with the object at a 16-byte boundary + 1 and + 4), gcc -O0 (the project\'s default build), gcc -O3 -DNDEBUG (CMake Release), clang -O2, gcc -O2 without predefined byte-order macros, gcc -O2 -fshort-enums, and clang -O1 with a 32-bit long (LLP64 data model), the latter six with the reduced lattice; other worlds are the subject of C14/C15']
 
 
-def build(prop, opt='-O2', fresh=True, defs=(), cc='gcc', tag=''):
+def build(prop, opt='-O2', fresh=True, defs=(), cc='gcc', tag='', cxx_callers=False):
     b = core.fresh_dir(os.path.join(core.ROOT, 'build', prop)) if fresh else os.path.join(core.ROOT, 'build', prop)
     g = os.path.join(b, 'gen')
     rep = core.run_gen(g)
-    wobjs = core.build_world(os.path.join(b, 'world' + opt + tag + ('' if cc == 'gcc' else '-' + cc)), g, cc=cc, cflags=(opt, '-g'), world_srcs=['wrap_generic.c'], defines=defs)
+    wobjs = core.build_world(os.path.join(b, 'world' + opt + tag + ('' if cc == 'gcc' else '-' + cc)), g, cc=cc, cflags=(opt, '-g'), world_srcs=['wrap_generic.c'], defines=defs, cxx_callers=cxx_callers)
     nobjs = core.build_native(os.path.join(b, 'native'), g, ['common.c', 'explore_fields.c'])
     exe = core.link(os.path.join(b, 'explore_fields' + opt + tag + ('' if cc == 'gcc' else cc)), nobjs + wobjs)
     return exe, rep
@@ -149,6 +149,12 @@ def run(prop, tier):
     EXOTIC = ('-funsigned-char', '-march=x86-64-v3', '-D_LITTLE_ENDIAN=1234', '-D_BIG_ENDIAN=4321', '-D_PDP_ENDIAN=3412', '-D_BYTE_ORDER=_LITTLE_ENDIAN')
     exex, _ = build(prop, '-O2', fresh=False, defs=EXOTIC, tag='-exotic')
     res = core.run_slices(exex, ['--suite', prop, '--tier', 'lite' if tier == 'quick' else 'quick'], timeout=timeout, result=res, tag='gcc -O2 -funsigned-char -march=x86-64-v3, BSD endian constants defined')
+    # C++ callers: the per-format thunks compiled as C++ against the C library (accessors that the headers define inline, tables
+    # that have a C++ rendering of their own)
+    exexx, _ = build(prop, '-O2', fresh=False, tag='-cxxcallers', cxx_callers=True)
+    res = core.run_slices(exexx, ['--suite', prop, '--tier', 'lite' if tier == 'quick' else 'quick'], timeout=timeout, result=res, tag='C++ callers (g++ -O2)')
+    # the same calls through the parenthesised function name: the exported function, not a function-like macro of that name
+    res = core.run_slices(exe, ['--suite', prop, '--tier', 'lite' if tier == 'quick' else 'quick', '--callmode', '1'], timeout=timeout, result=res, tag='calls through (name)(...)')
     # the object under test at other addresses (16-byte boundary + 1 and + 4; all eight residues are C15's subject)
     for off in (1, 4):
         res = core.run_slices(exe, ['--suite', prop, '--tier', 'lite' if tier == 'quick' else 'quick', '--off', str(off)], timeout=timeout, result=res, tag='object at a 16-byte boundary + %d' % off)
